@@ -94,20 +94,21 @@ func register(name string, d Def) {
 			cases[i] = m
 		}
 		out := run.ParMap(cases, c.Workers, func(_ int, cs Case) []Rec {
-			rs := d.Exec(c, cs)
-			for _, r := range rs {
-				r["case"] = cs
-			}
-			return rs
+			return d.Exec(c, cs)
 		})
+		// records.ndjson is what TLC reads (no nulls, no free text); cases.ndjson is line-aligned with it and
+		// carries the case that produced each record, for replays and known-finding matching.
 		recs := []any{}
+		caseLines := []any{}
 		flat := []Rec{}
 		seen := map[string]bool{}
 		nontrivial := 0
-		for _, rs := range out {
+		for ci, rs := range out {
 			for _, r := range rs {
 				recs = append(recs, r)
+				caseLines = append(caseLines, cases[ci])
 				flat = append(flat, r)
+				r = Rec{"case": cases[ci], "kind": r["kind"], "sub": r["sub"]}
 				if d.Nontrivial != nil && !d.Nontrivial(r) {
 					continue
 				}
@@ -125,6 +126,9 @@ func register(name string, d Def) {
 			}
 		}
 		if err := writeNDJSON(filepath.Join(c.Out, "records.ndjson"), recs); err != nil {
+			return nil, err
+		}
+		if err := writeNDJSON(filepath.Join(c.Out, "cases.ndjson"), caseLines); err != nil {
 			return nil, err
 		}
 		m := &Meta{
